@@ -2,8 +2,8 @@
 from reg._common import COMMON_ASSUME
 
 ENTRY = {
-    'lean_files': ['Props/C20.lean', 'Props/C02Concrete.lean'],
-    'lemma_files': ['Lemmas/PipelineInst.lean', 'Lemmas/Pipeline.lean', 'Lemmas/Predicates.lean', 'Model/Basic.lean', 'Model/Curve.lean',
+    'lean_files': ['Props/C20.lean', 'Props/C02Concrete.lean', 'Props/C20Overlap.lean'],
+    'lemma_files': ['Lemmas/Overlap.lean', 'Lemmas/Coverage.lean', 'Lemmas/PipelineInst.lean', 'Lemmas/Pipeline.lean', 'Lemmas/Predicates.lean', 'Model/Basic.lean', 'Model/Curve.lean',
                     'Model/Helpers.lean', 'Model/Newton.lean', 'Model/Locate.lean', 'Model/Geometric.lean', 'Model/GeometricInst.lean'],
     'script': 'props/c20.py',
     'rule': 'parent curves of degree 1..5 with dyadic control points and strictly increasing x (regular, injective); pairs of sub-arcs with '
@@ -12,9 +12,11 @@ ENTRY = {
             '5x5 lattice (sampled in quick, exhaustive in thorough) against exact rational overlap; the algebraic strategy on overlapping '
             'sub-arcs must refuse; every case is also run through the Lean model of the whole pipeline (exact rationals) and must agree '
             '(points within 2^-26, flag, refusal); the refusal rate is reported; distinct by hash of exact inputs',
-    'partial': ['for curved overlaps the theorems cover the fallback logic (flag only through check_lines or coincident_parameters after the '
-                'candidate budget; never a normal unflagged return there) and the collinear case exactly; that locate_point finds the end '
-                'points of the shared arc to the 2^-40 accuracy vector_close needs is validated by the correspondence (refusals counted)'],
+    'partial': [
+                'proved exactly for the coincident_parameters stage (Props/C20Overlap; any ordered field): for sub-arcs [a,b] and c->d of an injective parent, presented at any degrees (make_same_degree keeps the curves), under EXACT primitives (locate finds the unique pre-image and misses otherwise, specialize is the restriction, vector_close is reflexive - the concrete specialize / vector_close satisfy this, the concrete locate only up to its Newton accuracy): all four branches return exactly the local parameters of the two ends of the shared arc, ordered along the first curve; none for disjoint arcs; touching arcs form the degenerate candidate and the width test gives none; short partial overlaps (both local widths below MIN_INTERVAL_WIDTH) give none; opposite direction: ordered along the SECOND curve exactly when the second arc lies inside the first (finding F-J, stated as a theorem)',
+                'pipeline level: overlap_flagged_is_shared_arc (a flagged result is the check_lines answer or exactly the two shared-arc end points) holds unconditionally; overlap_never_unflagged_exact (never a normal unflagged return; the result is the flagged pair or NotImplementedError) holds under the hypothesis bundle RunSound on the round loop (enough tracked common points, no piece linearised before the candidate budget is exceeded, covering pairs have intersecting boxes and colliding hulls) which is reduced but not discharged for the concrete primitives; without it the model also allows an unflagged return for short overlaps once pieces are linearised - on the real code this is what the correspondence runs explore (refusals counted)',
+                'collinear segments: exact (Props/C20: check_lines / parallel_lines_parameters in all relative positions, with the findings F-D touching and F-J ordering as decided counter-examples)',
+    ],
     'trusted_base': ['modelled not verified: all_intersections, check_lines, parallel_lines_parameters, coincident_parameters, '
                      'make_same_degree (geometric_intersection.py, curve_intersection.f90), locate_point, specialize_curve'],
     'assumptions': COMMON_ASSUME,
